@@ -53,6 +53,14 @@ def _queue_name(do_node, path, index, qparam):
 def _spawned_function(an, first, payload):
     """the coroutine function whose call is handed to ``scope.do``: a module level one or
     one nested in ``first``"""
+    if isinstance(payload, ast.Call) and isinstance(payload.func, ast.Attribute) and \
+            getattr(payload.func.value, 'record_class', None):
+        # a coroutine method of a record (typing.NamedTuple) built on this path
+        for fn in an.p.functions.values():
+            if fn.name == payload.func.attr and fn.kind == 'coroutine' and \
+                    fn.cls is not None and fn.cls.qn == payload.func.value.record_class:
+                return fn
+        return None
     if not (isinstance(payload, ast.Call) and isinstance(payload.func, ast.Name)):
         return None
     for fn in an.p.functions.values():
@@ -63,10 +71,30 @@ def _spawned_function(an, first, payload):
     return None
 
 
+def _monitor_params(monitor):
+    """the parameters of the spawned coroutine that its call fills (a method: without self)"""
+    names = [a.arg for a in monitor.node.args.args]
+    return names[1:] if monitor.cls is not None else names
+
+
+def _record_field(display, target):
+    """the element of the record display that ``self.<field>`` of its method stands for"""
+    names = getattr(display, 'record_fields', None) or []
+    if target is None or not isinstance(display, ast.Tuple) or \
+            len(names) != len(display.elts):
+        return None
+    if target.startswith('self[') and target[5:-1].isdigit() and target.endswith(']'):
+        # (value expansion writes a field of a record as its position)
+        return display.elts[int(target[5:-1])] if int(target[5:-1]) < len(names) else None
+    if not target.startswith('self.') or target[5:] not in names:
+        return None
+    return display.elts[names.index(target[5:])]
+
+
 def _monitor_queue(an, monitor):
     """the name the monitor calls ``.put`` on (a parameter or a closure variable)"""
     names = set()
-    for path in an.paths(Callee(monitor, None)):
+    for path in an.paths(Callee(monitor, monitor.cls.qn if monitor.cls else None)):
         for index, event in enumerate(path.events):
             if event.kind in ('call', 'enter') and event.depth == 0 and \
                     is_call_to(event, 'put') and isinstance(event.node.func, ast.Attribute):
@@ -289,7 +317,7 @@ def run(check, an: Analysis):
                 good = monitor is not None
                 if good:
                     monitors[monitor.qn] = monitor
-                    mparams = [a.arg for a in monitor.node.args.args]
+                    mparams = _monitor_params(monitor)
                     bound = dict(zip(mparams, payload.args))
                     bound.update({kw.arg: kw.value for kw in payload.keywords})
                     contestant = bound.get(mparams[0]) if mparams else None
@@ -309,6 +337,18 @@ def run(check, an: Analysis):
                     elif good and target is not None and monitor.parent is first and \
                             target in _queue_locals(path, index):
                         queues.add(target)
+                    elif good and monitor.cls is not None and \
+                            _record_field(payload.func.value, target) is not None:
+                        # the queue is a field of the record whose method is spawned
+                        queue = _record_field(payload.func.value, target)
+                        good = isinstance(queue, ast.Call) and \
+                            ast.unparse(queue.func) == 'Queue'
+                        kept = rules.value_expr(path, index, node.args[0],
+                                                keep=_queue_locals(path, index))
+                        named = _record_field(kept.func.value, target) if isinstance(
+                            kept, ast.Call) and isinstance(kept.func, ast.Attribute) else None
+                        if good and named is not None:
+                            queues.add(ast.unparse(named))
                     else:
                         good = False
                 if not good:
@@ -409,9 +449,9 @@ def run(check, an: Analysis):
     # the monitor
     ok, n_put = len(monitors) == 1, 0
     for monitor in monitors.values():
-        mparams = [a.arg for a in monitor.node.args.args]
+        mparams = _monitor_params(monitor)
         target = _monitor_queue(an, monitor)
-        mpaths = an.paths(Callee(monitor, None))
+        mpaths = an.paths(Callee(monitor, monitor.cls.qn if monitor.cls else None))
         for path in mpaths:
             puts = [(i, e) for i, e in enumerate(path.events)
                     if e.kind in ('call', 'enter') and e.depth == 0 and is_call_to(e, 'put')]
